@@ -41,7 +41,7 @@ def cases(tier, rng):
            'items': [0, 1, 2, 3, 4, 5]}
     yield {'kind': 'mux', 'term': [['roll', 2, 2, [['tee', 'zip', [[['filter', ['is_even']]], [['identity']]]]]]], 'items': [1, 1, 2, 3, 5, 5, 6, 7]}
     yield {'kind': 'mux', 'term': [['roll', 3, 3, [['split', ['mod', 2], [['count', True]]]]]], 'items': [0, 0, 1, 0, 1, 1, 2]}
-    n = {'quick': 500, 'thorough': 10000, 'search': 600}[tier]
+    n = {'quick': 1500, 'thorough': 10000, 'search': 600}[tier]
     for _ in range(n):
         g = muxgen.Gen(rng, {'nest': 1, 'max_len': 3, 'math': rng.random() < 0.3})
         inner, _ = g.pipe('int', 1)
